@@ -30,6 +30,7 @@ type fileOp struct {
 }
 
 type c13Case struct {
+	Dec *decProtoCase `json:"dec,omitempty"` // operation sequences on one Decoder object over a set with a single recovery file (decproto.go): what the object reports after its recovery data has gone must be truthful
 	Fmt   string   `json:"fmt"` // p2, p1
 	Set   int      `json:"set"` // index into the config table
 	Ops   []fileOp `json:"ops,omitempty"`
@@ -208,6 +209,15 @@ func c13GenFormat(g *core.Gen, fmtName string, set int, files []string, content 
 }
 
 func c13Gen(g *core.Gen) {
+	// one Decoder object, a set with ONE recovery file: every sequence of 5 (thorough 6) operations, and of 4 (5) over the
+	// error-path alphabet - the recovery file deleted, cut short or restored between the loads
+	dd := 5
+	if g.Thorough() {
+		dd = 6
+	}
+	for _, f := range []string{"p2", "p1"} {
+		decProtoGen(f, dd, false, func(d *decProtoCase) { d.One = true; g.Emit(&c13Case{Fmt: f, Dec: d}) })
+	}
 	for si, cfg := range c13P2 {
 		if si == 1 && false {
 			continue
@@ -373,6 +383,10 @@ func c13Twin(c *c13Case) bool {
 
 func c13Run(ci interface{}, r *core.Rec) {
 	c := ci.(*c13Case)
+	if c.Dec != nil {
+		decProtoRun(c.Dec, r, func(d *decProtoCase) interface{} { return &c13Case{Fmt: d.Fmt, Dec: d} })
+		return
+	}
 	if c.Fmt == "p2" {
 		c13RunP2(c, r)
 	} else {
@@ -608,7 +622,7 @@ func init() {
 	core.Register(&core.Prop{
 		ID:    "C13",
 		Level: "fault_enumeration",
-		Rule: "for a small PAR2 set (2 files, slice 4, 3 blocks) and a small PAR1 set (2 files, 2 volumes): for EVERY file of the set (index, recovery/parity files, data files): truncation at every byte offset, every single-bit flip, garbage of 4 lengths, emptied, deleted, overwritten with every other file of the same set (the index over a recovery file, one volume over another, ...); every subset of deleted files; pairs deletion+flip/truncation; the data-file part of that menu also on sets whose content exists twice (a duplicated file, duplicated slices, a set without recovery blocks) and on zero-tailed files. " +
+		Rule: "(plus the decoder protocol search - see C14 - over sets with ONE recovery file / volume, main and error-path alphabet: whatever a Decoder object reports after its recovery data was deleted, cut short or restored between loads must be truthful) for a small PAR2 set (2 files, slice 4, 3 blocks) and a small PAR1 set (2 files, 2 volumes): for EVERY file of the set (index, recovery/parity files, data files): truncation at every byte offset, every single-bit flip, garbage of 4 lengths, emptied, deleted, overwritten with every other file of the same set (the index over a recovery file, one volume over another, ...); every subset of deleted files; pairs deletion+flip/truncation; the data-file part of that menu also on sets whose content exists twice (a duplicated file, duplicated slices, a set without recovery blocks) and on zero-tailed files. " +
 			"For larger sets (>16 KiB data, slice 64): truncation at every packet/entry boundary +-1 and header field, every header bit, every 97th payload bit. Crash part: every prefix of Create's recorded write sequence with the interrupted write torn at every byte (small) or every packet/field boundary (large), then Verify and Repair with data intact / one file deleted / one file bit-flipped. " +
 			"Oracle: no panic, no hang, error or result; usable data <= slices (files) whose content is present; usable recovery blocks <= distinct intact recovery packets found by a resynchronising reference scanner (PAR1: volumes that parse strictly with the original parity data); Repair writes only exact originals (C02 oracle); with the index and every recovery file untouched, a Repair that reports success leaves every protected file original; Verify writes nothing. non-trivial = fault changed the outcome (error or repair)",
 		Assumptions: []string{"an error is an acceptable answer to any corruption (the statement allows 'either an error or a result')"},
